@@ -304,17 +304,22 @@ def result_dtype(a, b, op):
 def elementwise2(a, b, f, op='+'):
     """Binary element-wise operation with broadcasting; a or b may be scalars."""
     dt = result_dtype(a, b, op)
+    # operands are read NOW (snapshots): a later in-place update of an operand must not change this result
     if isinstance(a, SArr) and isinstance(b, SArr):
         shape, ma, mb = broadcast_shapes(a.shape, b.shape)
         n, na, nb = len(shape), a.ndim, b.ndim
-        return SArr(shape, lambda idx: f(a.at(_sub_idx(idx, ma, n, na)), b.at(_sub_idx(idx, mb, n, nb))), dt)
+        sa, sb = a._snapshot(), b._snapshot()
+        return SArr(shape, lambda idx: f(sa(_sub_idx(idx, ma, n, na)), sb(_sub_idx(idx, mb, n, nb))), dt)
     if isinstance(a, SArr):
-        return SArr(a.shape, lambda idx: f(a.at(idx), b), dt)
-    return SArr(b.shape, lambda idx: f(a, b.at(idx)), dt)
+        sa = a._snapshot()
+        return SArr(a.shape, lambda idx: f(sa(idx), b), dt)
+    sb = b._snapshot()
+    return SArr(b.shape, lambda idx: f(a, sb(idx)), dt)
 
 
 def elementwise1(a, f, dtype=None):
-    return SArr(a.shape, lambda idx: f(a.at(idx)), dtype or a.dtype)
+    sa = a._snapshot()
+    return SArr(a.shape, lambda idx: f(sa(idx)), dtype or a.dtype)
 
 
 # -------------------------------------------------------------------------------------
@@ -778,9 +783,24 @@ def reshape(a, newshape):
                 flat = flat // d
             res.append(flat)
             return src.at(tuple(reversed(res)))
+    if a.ndim == 2 and len(newshape) == 3 and _same(oshape[0], newshape[0]) and _same(oshape[1], newshape[1] * newshape[2]):
+        c = newshape[2]
+
+        def fn(idx):  # noqa: F811 (split of the last axis: no div/mod needed)
+            return src.at((idx[0], idx[1] * c + idx[2]))
     r = SArr(newshape, fn, a.dtype)
     r.view_of = a.root()      # reshape returns a view in numpy (for contiguous input)
     return r
+
+
+def _same(x, y):
+    """Syntactic equality of two dimension terms (after simplification)."""
+    if is_conc(x) and is_conc(y):
+        return x == y
+    e = eq(x, y)
+    if isinstance(e, bool):
+        return e
+    return z3.is_true(z3.simplify(e.t))
 
 
 def transpose(a):
